@@ -8,3 +8,4 @@ open LhasaV.Props.C02
 #print axioms rebuild_reached
 #print axioms mirror_is_what_the_tie_evaluates
 #print axioms lh1_decode_encode
+#print axioms lh1_init_matches_source
